@@ -160,6 +160,10 @@ def monitor(ctx, extended=False):
             pl.name = ctx.rng.choice(['Line A', 'x', 'Ünïcode ✓', 'a/b'])
             pl.slurry.name = ctx.rng.choice(['sand', 'S 1'])
             secs = pl.pipesections
+            # section names as a user types them: leading / trailing blanks or tabs, inner double blanks, punctuation, non-ASCII
+            for sct in secs:
+                if isinstance(sct, Pipe) and ctx.rng.random() < 0.4:
+                    sct.name = ctx.rng.choice([' Suction', 'Floating line ', 'Shore line\t', 'D\u00fcker 3', 'pipe  two', 'Rohr-1/2"', '\u914d\u7ba1', ' x '])
             pumps = [s for s in secs if not isinstance(s, Pipe)]
             if pumps and ctx.rng.random() < 0.5:
                 # a repeated pump, or a same-named pump with a different drive
